@@ -278,11 +278,13 @@ CHECKS["C10"] = {
     "quick": {"tests": [{"test": "TestC10", "checks": 20000, "subchecks": 1},
                         {"test": "TestC10Deep", "checks": 150, "subchecks": 1},
                         {"test": "TestC10Huge", "checks": 6, "subchecks": 1},
+                        {"test": "TestC10Rank", "checks": 150, "subchecks": 1},
                         {"test": "TestC10Enum", "checks": 1, "subchecks": 66364}]},
     "thorough": {"shards": 16, "timeout": 3000, "tests": [
         {"test": "TestC10", "checks": 200000, "subchecks": 1},
         {"test": "TestC10Deep", "checks": 3000, "subchecks": 1},
         {"test": "TestC10Huge", "checks": 24, "subchecks": 1, "once": True},
+        {"test": "TestC10Rank", "checks": 1000, "subchecks": 1},
         {"test": "TestC10Enum", "checks": 1, "subchecks": 1, "nocount": True, "env": {"VERIF_C10_AB": "12", "VERIF_C10_ABC": "7"}, "once": True},
     ]},
     "rule": ("texts of length 0..48 (10%: up to 160) from the C09 families with drawn (minLen, maxLen), sa/lcp computed by "
@@ -499,6 +501,8 @@ CHECKS["C10"]["rule"] += (" Plus deep nesting (TestC10Deep): runs and short-peri
                           "up to 700 bytes (hundreds of groups open at once). Plus TestC10Huge: a run of 10-12.5 million bytes, optionally "
                           "with a smaller byte behind it, sa/lcp written down directly and the groups known in closed form (ten million "
                           "groups open at once; a fatal runtime error is attributed to the case marked as running).")
+CHECKS["C10"]["rule"] += (" Plus TestC10Rank: texts of 1100-2700 bytes without repeats of 4 and more bytes except one planted pair that is "
+                          "built to sit at a chosen index of the LCP table (256, 512, 768, 1023..1025, 1536, 2047, 2048).")
 CHECKS["C13"]["rule"] += (" (6) abandoned streams: H1 = 'P..P L' parsed in part (mostly ending with a NoTrailingLiterals call), after the "
                           "Reset the same text with single bytes changed around the parse position and the original of the changed place "
                           "repeated behind it; also with 2^8..3*2^16 (-1, 0, +1) further Reset(nil) calls in between on small tables "
